@@ -20,6 +20,7 @@ import (
 )
 
 type boundedSpec struct {
+	ID      string // short id: the obligation name is "bounded:<ID>" (known findings refer to it)
 	Name    string // label in the evidence
 	File    string // under <verif>/bounded
 	Run     string // -run regexp
@@ -33,27 +34,39 @@ type boundedSpec struct {
 
 var boundedByProp = map[string][]boundedSpec{
 	"C07": {
-		{Name: "asm-vs-go differential (default build: assembly kernels)", File: "c07_diff_test.go.txt", Run: "TestVerifBoundedC07$", Marker: "C07DIFF",
+		{ID: "asm-diff", Name: "asm-vs-go differential (default build: assembly kernels)", File: "c07_diff_test.go.txt", Run: "TestVerifBoundedC07$", Marker: "C07DIFF",
 			Bounds: "vector lengths 0..9; words from a 20-element edge set (all combinations up to length 2, pseudo-random selections above, plus uniform words); shifts 0..18 (decimal) and 0..63 (binary); z==x, z==y and the overlapping shift layouts; canary words around the destination",
 			Stands: []string{"add10VV", "sub10VV", "add10VW", "sub10VW", "shl10VU", "shr10VU", "mulAdd10VWW", "addMul10VVW", "div10VWW", "mul10WW", "div10W", "div10WW",
 				"addVV", "subVV", "addVW", "subVW", "shlVU", "shrVU", "mulAddVWW", "addMulVVW", "divWVW", "mulWW", "divWW"},
 			Env: map[string][2]string{"VERIF_C07_COUNT": {"300", "6000"}}, Timeout: "600s"},
-		{Name: "wrapper check (decimal_pure_go, math_big_pure_go build: kernels are the Go wrappers)", File: "c07_diff_test.go.txt", Run: "TestVerifBoundedC07$", Marker: "C07DIFF",
+		{ID: "wrapper-diff", Name: "wrapper check (decimal_pure_go, math_big_pure_go build: kernels are the Go wrappers)", File: "c07_diff_test.go.txt", Run: "TestVerifBoundedC07$", Marker: "C07DIFF",
 			Bounds: "same family, smaller count", Stands: []string{"pure-Go wrappers in dec_arith_decl_pure.go / arith_decl_pure.go"},
 			Tags: "decimal_pure_go,math_big_pure_go", Env: map[string][2]string{"VERIF_C07_COUNT": {"40", "300"}}, Timeout: "600s"},
 	},
 }
 
-var c06Spec = boundedSpec{Name: "executed contracts of dec.mul, dec.sqr, dec.div against math/big", File: "c06_exec_test.go.txt", Run: "TestVerifBoundedC06$", Marker: "C06EXEC",
+var c06Spec = boundedSpec{ID: "mul-sqr-div-exec", Name: "executed contracts of dec.mul, dec.sqr, dec.div against math/big", File: "c06_exec_test.go.txt", Run: "TestVerifBoundedC06$", Marker: "C06EXEC",
 	Bounds: "operand lengths 1..260 words (30 sizes around every threshold; division with 1..230-word divisors so that divBasic and divRecursive both run), six word patterns (all nines, zeros under a top word, alternating, edge words, mixed, uniform), threshold tunings {default, (2,1,2), (3,2,4), (4,3,7), (8,4,8), (40,20,40)} for sizes <= 130, remainders {0, v-1, small, random}, stale and aliased destinations",
 	Stands: []string{"dec.mul (assumed value clause)", "dec.sqr (assumed value clause)", "dec.div (assumed value clause)"},
 	Env: map[string][2]string{"VERIF_C06_REPS": {"3", "40"}}, Timeout: "1500s"}
+
+var c05Spec = boundedSpec{ID: "sqrt-rounding", Name: "executed rounding clause of Sqrt against an exact integer oracle", File: "c05_sqrt_test.go.txt", Run: "TestVerifBoundedC05$", Marker: "C05SQRT",
+	Bounds: "perfect squares 1..3600 and their neighbours at six exponents, pseudo-random 1..4 word operands with exponents -20..20, 20 precisions from 1 to 100, six rounding modes, the special values",
+	Stands: []string{"sqrtInverse (assumed)", "Sqrt: the correctly-rounded clause"},
+	Env:    map[string][2]string{"VERIF_C05_COUNT": {"400", "20000"}}, Timeout: "1500s"}
 
 func init() {
 	for _, p := range []string{"C06", "C01", "C02"} {
 		boundedByProp[p] = append(boundedByProp[p], c06Spec)
 	}
+	boundedByProp["C05"] = append(boundedByProp["C05"], c05Spec)
+	boundedByProp["C03"] = append(boundedByProp["C03"], boundedSpec{ID: "fma-product-range", Name: "FMA with a product outside the exponent range (class excluded by requires[prodrange])",
+		File: "c03_fma_range_test.go.txt", Run: "TestVerifBoundedC03$", Marker: "C03FMA",
+		Bounds: "two members of the excluded class (underflowing and overflowing exact product) x three precisions x six modes, against the same operation with the product inside the range",
+		Stands: []string{"FMA outside requires[prodrange]"}, Timeout: "300s"})
 }
+
+var classRe = regexp.MustCompile(`class=(\S+)`)
 
 var casesRe = regexp.MustCompile(`cases=(\d+) mismatches=(\d+)`)
 
@@ -87,6 +100,7 @@ func runBounded(repo, verif, prop, tier string, seed int, rep *CheckReport) {
 		os.RemoveAll(wd)
 		text := string(out)
 		cases, mism := 0, -1
+		summaryLine := ""
 		var mismLines []string
 		for _, l := range strings.Split(text, "\n") {
 			if strings.HasPrefix(l, sp.Marker+"-MISMATCH") {
@@ -95,29 +109,72 @@ func runBounded(repo, verif, prop, tier string, seed int, rep *CheckReport) {
 				if m := casesRe.FindStringSubmatch(l); m != nil {
 					cases, _ = strconv.Atoi(m[1])
 					mism, _ = strconv.Atoi(m[2])
+					summaryLine = l
 				}
 			}
 		}
-		entry := map[string]interface{}{"name": sp.Name, "stands_in_for": sp.Stands, "bounds": sp.Bounds, "cases": cases, "mismatches": mism,
-			"seed": seed, "tags": sp.Tags, "wall_s": time.Since(t0).Seconds(), "label": "bounded (executed comparison, not a proof)"}
+		// classify the disagreements: a class listed as an open known finding is reported as such
+		known := loadKnown(filepath.Join(verif, "known_findings.json"))
+		byClass := map[string][]string{}
+		var classOrder []string
+		for _, l := range mismLines {
+			cls := "unclassified"
+			if m := classRe.FindStringSubmatch(l); m != nil {
+				cls = m[1]
+			}
+			if _, ok := byClass[cls]; !ok {
+				classOrder = append(classOrder, cls)
+			}
+			byClass[cls] = append(byClass[cls], l)
+		}
+		obl := "bounded:" + sp.ID
+		entry := map[string]interface{}{"id": sp.ID, "name": sp.Name, "stands_in_for": sp.Stands, "bounds": sp.Bounds, "cases": cases, "mismatches": mism,
+			"seed": seed, "tags": sp.Tags, "wall_s": time.Since(t0).Seconds(), "label": "bounded (executed comparison, not a proof)", "summary": summaryLine}
 		rep.Bounded = append(rep.Bounded, entry)
-		if mism == 0 && err == nil {
+		unexplained := 0
+		for _, cls := range classOrder {
+			isKnown := false
+			for _, k := range known.Findings {
+				if k.Status == "open" && k.Property == prop && k.Obligation == obl && k.Class == cls {
+					isKnown = true
+					rep.KnownSeen = append(rep.KnownSeen, obl+"["+cls+"]")
+					rep.Lines = append(rep.Lines, fmt.Sprintf("KNOWN-FINDING: property=%s %s class=%s %s (e.g. %s)", prop, obl, cls, k.What, strings.TrimSpace(strings.TrimPrefix(byClass[cls][0], sp.Marker+"-MISMATCH"))))
+				}
+			}
+			if !isKnown {
+				unexplained += len(byClass[cls])
+			}
+		}
+		ranOK := mism >= 0 && (err == nil || mism > 0)
+		if ranOK && unexplained == 0 && (mism == 0 || len(classOrder) > 0) {
 			continue
 		}
-		// disagreement (or the test could not run): a violation with the failing inputs as replay
+		// a disagreement not covered by a known finding (or the test could not run): violation, failing inputs as replay
 		rep.Violations++
-		body := map[string]interface{}{"property": prop, "obligation": "bounded:" + sp.Name, "what": "the assembly routine and its portable Go twin disagree on the inputs below (or the comparison could not be run)",
-			"mismatches": mismLines, "command": "cd " + repo + " && go " + strings.Join(args, " "), "output_tail": truncateTail(text, 3000)}
-		rp := writeReplay(verif, prop, "bounded_"+sp.File+"_"+sp.Tags, body)
+		var bad []string
+		for _, cls := range classOrder {
+			listed := false
+			for _, k := range known.Findings {
+				if k.Status == "open" && k.Property == prop && k.Obligation == obl && k.Class == cls {
+					listed = true
+				}
+			}
+			if !listed {
+				bad = append(bad, byClass[cls]...)
+			}
+		}
+		body := map[string]interface{}{"property": prop, "obligation": obl, "what": sp.Name + ": the real code disagrees with the executed contract on the inputs below (or the run did not complete)",
+			"mismatches": bad, "command": "cd " + repo + " && go " + strings.Join(args, " "), "output_tail": truncateTail(text, 3000)}
+		rp := writeReplay(verif, prop, "bounded_"+sp.ID, body)
 		line := fmt.Sprintf("VIOLATION property=%s replay=%s", prop, rp)
-		if len(mismLines) == 0 {
+		if len(bad) == 0 {
 			line += " no-failing-input-found"
 		}
 		rep.Lines = append(rep.Lines, line)
-		if len(mismLines) > 0 {
-			rep.Lines = append(rep.Lines, "  "+mismLines[0])
+		if len(bad) > 0 {
+			rep.Lines = append(rep.Lines, "  "+bad[0])
 		} else {
-			rep.Lines = append(rep.Lines, "  bounded comparison did not complete: "+truncateTail(text, 300))
+			rep.Lines = append(rep.Lines, "  bounded run did not complete: "+truncateTail(text, 300))
 		}
 	}
 }
